@@ -20,6 +20,8 @@ BODIES = {
     "cbdropped": "c = channel.gateway.newchannel()\nc.setcallback(lambda x: None)\nchannel.send(c)\ndel c\nchannel.receive()",
     "nondaemon": "import threading, time\nthreading.Thread(target=lambda: time.sleep(1000)).start()",
     "atexit_hang": "import atexit, time\natexit.register(time.sleep, 1000)",
+    # the body does not read; the initiator floods its channel with unconsumed items before it goes away
+    "flooded": "import time\ntime.sleep(1000)",
 }
 
 
@@ -49,6 +51,9 @@ def main():
         body = BODIES[sc["env"]]
         if body is not None:
             keep.append(gw.remote_exec(body))
+            if sc["env"] == "flooded":
+                for k in range(6000):
+                    keep[-1].send(k)
         out.append({"scenario": sc, "pid": pid})
     time.sleep(0.3)  # let the bodies get going
     print(json.dumps({"me": os.getpid(), "workers": out, "all": sorted(p for p in _desc(os.getpid()))}), flush=True)
